@@ -1,2 +1,5 @@
 import Iso8583.Basic
 import Iso8583.Driver
+import Iso8583.Props.C06
+import Iso8583.Props.C07
+import Iso8583.Props.C20
